@@ -7,6 +7,7 @@ import (
 	"go/types"
 	"math/rand"
 	"os"
+	"os/exec"
 	"path/filepath"
 	"sort"
 	"strings"
@@ -204,6 +205,12 @@ func goEnv() []string {
 	return append(out, "GOFLAGS=-mod=mod", "GOPROXY=off", "GOWORK=off")
 }
 
+// prepViolation is a property violation detected concretely by the prepare step or by the type
+// checker on the emitted code (not by a solver query); it is reproduced natively before it is reported.
+type prepViolation struct{ msg string }
+
+func (p *prepViolation) Error() string { return p.msg }
+
 func (d *Driver) prepare(ov map[string][]byte, files map[string]string) error {
 	p := d.spec.Prepare
 	if p == nil {
@@ -216,6 +223,10 @@ func (d *Driver) prepare(ov map[string][]byte, files map[string]string) error {
 	d.prepDir = dir
 	out, err := execOutput(p.Cmd, dir, d.tier)
 	if err != nil {
+		if ee, ok := err.(*exec.ExitError); ok && ee.ExitCode() == 3 {
+			// the prepare step's own concrete by-product check failed (e.g. regeneration differs)
+			return &prepViolation{msg: trunc(out, 3000)}
+		}
 		return fmt.Errorf("prepare step failed: %v\n%s", err, trunc(out, 3000))
 	}
 	for sub, rel := range p.Overlays {
@@ -275,6 +286,13 @@ func (d *Driver) load() error {
 		}
 	})
 	if len(errs) > 0 {
+		if d.spec.Prepare != nil {
+			// the emitted code does not type-check against the harness generated from the same schema
+			// model: reproduce with the native compiler before reporting
+			if msg, bad := d.nativeBuildFails(); bad {
+				return &prepViolation{msg: "emitted code does not provide the API declared by the schema / does not compile:\n" + msg}
+			}
+		}
 		return fmt.Errorf("load errors (harness does not compile against the current tree?):\n  %s", strings.Join(errs, "\n  "))
 	}
 	prog, _ := ssautil.AllPackages(pkgs, ssa.InstantiateGenerics)
@@ -286,6 +304,34 @@ func (d *Driver) load() error {
 	d.prog = prog
 	d.pkgs = pkgs
 	return nil
+}
+
+// nativeBuildFails type-checks the overlaid packages of the prepare step with the real compiler.
+func (d *Driver) nativeBuildFails() (string, bool) {
+	tmp, err := os.MkdirTemp("", "gosx-build-")
+	if err != nil {
+		return "", false
+	}
+	defer os.RemoveAll(tmp)
+	data, _ := json.Marshal(map[string]interface{}{"Replace": d.ovFiles})
+	ovJSON := filepath.Join(tmp, "overlay.json")
+	os.WriteFile(ovJSON, data, 0o644)
+	var pkgs []string
+	for _, rel := range d.spec.Prepare.Overlays {
+		pkgs = append(pkgs, "./"+rel)
+	}
+	sort.Strings(pkgs)
+	args := append([]string{"vet", "-tags=verif", "-overlay", ovJSON}, pkgs...)
+	args[0] = "build"
+	args = append([]string{"build", "-tags=verif", "-overlay", ovJSON, "-o", os.DevNull}, pkgs...)
+	cmd := exec.Command("go", args...)
+	cmd.Dir = repoDir
+	cmd.Env = goEnv()
+	out, err := cmd.CombinedOutput()
+	if err != nil {
+		return trunc(string(out), 3000), true
+	}
+	return "", false
 }
 
 func (d *Driver) findFunc(full string) (*ssa.Function, error) {
